@@ -71,8 +71,8 @@ PROPS = {
     },
     "C13": {
         "pkg": "session", "level": "exploration",
-        "quick": {"stages": [st("^TestC13Termination", 600), st("^TestC13WebSocketSend", 3, shrinktime="40s"), st("^TestC13WebSocketCancel", 4, shrinktime="40s")]},
-        "thorough": {"stages": [st("^TestC13Termination", 5000, shards=12), st("^TestC13Termination", 800, shards=3, race=True), st("^TestC13WebSocketSend", 20, shards=1, shrinktime="60s"), st("^TestC13WebSocketCancel", 30, shards=1, shrinktime="60s")]},
+        "quick": {"stages": [st("^TestC13Termination", 600), st("^TestC13WebSocketSend", 3, shrinktime="40s"), st("^TestC13WebSocketCancel", 4, shrinktime="40s"), st("^TestC13RouterInboundClose", 150), st("^TestC13SQLiteBlockedInserter", 6)]},
+        "thorough": {"stages": [st("^TestC13Termination", 5000, shards=12), st("^TestC13Termination", 800, shards=3, race=True), st("^TestC13WebSocketSend", 20, shards=1, shrinktime="60s"), st("^TestC13WebSocketCancel", 30, shards=1, shrinktime="60s"), st("^TestC13RouterInboundClose", 3000, shards=2), st("^TestC13SQLiteBlockedInserter", 60, shards=1)]},
     },
     "C20": {
         "pkg": "core", "level": "exploration",
